@@ -867,7 +867,8 @@ class Extractor:
     def _float_neg(self, body, where, drops, res):
         """A15: unary negation of a parenthesised float cast, `-(E as f64)` -> `vx_neg_f64__(E as f64)`; the shim is an
         external_body function with no contract (Verus 0.2026.09.13 has no unary negation of floats), so nothing is
-        known about the value: obligations that depend on it fail or stay undecided, never pass by accident."""
+        known about the value: obligations that depend on it cannot pass by accident; the function is marked degraded, so its
+        failures are reported as violations only with a failing input on the real library (else exit 2)."""
         while True:
             toks = lex(body)
             hit = None
@@ -897,6 +898,8 @@ class Extractor:
             inner = body[toks[k + 1].end:toks[j].start]
             body = body[:toks[k].start] + 'vx_neg_f64__(' + inner + ')' + body[toks[j].end:]
             res.need_neg_f64 = True
+            if where not in self._degraded:
+                self._degraded.append(where)    # failures of this function are reported only with a failing input
             drops.append('A15 in %s: `-(%s)` -> vx_neg_f64__(..) (assumed shim without contract)' % (where, inner.strip()))
 
     def _eta(self, body, fs, where, drops):
